@@ -152,6 +152,21 @@ impl Asm {
     }
 }
 
+/// (position, name) of an entry of the preprocessor's forward-reference collection, whatever collection it is
+pub trait UndefEntry {
+    fn entry(self) -> (usize, String);
+}
+impl UndefEntry for &(usize, String) {
+    fn entry(self) -> (usize, String) {
+        (self.0, self.1.clone())
+    }
+}
+impl UndefEntry for (&usize, &String) {
+    fn entry(self) -> (usize, String) {
+        (*self.0, self.1.clone())
+    }
+}
+
 /// the interpreter's call stack as indices (whatever integer type the field has)
 pub fn cs_get(ictx: &InterpreterContext) -> Vec<usize> {
     ictx.call_stack.iter().map(|x| *x as usize).collect()
